@@ -48,16 +48,23 @@ class Twin:
         gd = os.path.join(w.repo, ".git")
         logp = os.path.join(gd, "userhooks.log")
         hdir = os.path.join(gd, "hooks") if kind == "dot-git" else os.path.join(w.root, "myhooks")
+        if kind == "hookspath-rel":
+            hdir = os.path.join(w.repo, ".githooks")      # configured as the RELATIVE path `.githooks` (git resolves it against the top level)
         os.makedirs(hdir, exist_ok=True)
         for h in HOOKS:
             if h == "reference-transaction":
                 continue
             p = os.path.join(hdir, h)
             with open(p, "w") as f:
-                f.write(hook_script(h, logp))
+                # hooks kept inside the work tree must be byte-identical in both twins (they get staged by `add -A`)
+                f.write(hook_script(h, logp) if kind != "hookspath-rel" else hook_script(h, "$(/usr/bin/git rev-parse --absolute-git-dir)/userhooks.log"))
             os.chmod(p, stat.S_IRWXU)
         if kind == "hookspath":
             w.git("config", "core.hooksPath", hdir, plain=True, tick=False)
+            self.user_hookspath = hdir.replace(w.root, "<ROOT>")
+        if kind == "hookspath-rel":
+            w.git("config", "core.hooksPath", ".githooks", plain=True, tick=False)
+            self.user_hookspath = ".githooks"
 
     # ------------------------------------------------------------------ state
     def state(self, w):
@@ -80,7 +87,8 @@ class Twin:
         try:
             cfg = open(os.path.join(gd, "config")).read().replace(w.root, "<ROOT>")
             # installed by the harness itself (git-hooks ensure in the both-modes variant), not by the command under test
-            cfg = cfg.replace("\thooksPath = <ROOT>/repo/.git/ai/hooks\n", "")
+            up = getattr(self, "user_hookspath", None)
+            cfg = cfg.replace("\thooksPath = <ROOT>/repo/.git/ai/hooks\n", ("\thooksPath = %s\n" % up) if up else "")
         except OSError:
             cfg = None
         try:
